@@ -33,6 +33,7 @@ const (
 	emReturnIdent                 // return <ident named name> as first result
 	emAppendIdent                 // append(xs, <ident named name>)
 	emAssignIdent                 // <ident named name> = e   [argIs: text of e]
+	emReturnText                  // return <expr whose text is name>, …
 )
 
 type emitSel struct {
@@ -184,6 +185,10 @@ func findEmissions(fn *Func, sel emitSel) []ast.Node {
 					root.extraGuard[rs] = decompose(last, sel.kind == emReturnTrue, nil)
 					out = append(out, rs)
 				}
+			}
+		case emReturnText:
+			if rs, ok := n.(*ast.ReturnStmt); ok && len(rs.Results) >= 1 && sameText(fn, cmpText(rs.Results[0]), sel.name) {
+				out = append(out, rs)
 			}
 		case emReturnIdent:
 			if rs, ok := n.(*ast.ReturnStmt); ok && len(rs.Results) >= 1 {
@@ -617,8 +622,26 @@ func guardHolds(p5c *p5, fn *Func, at ast.Node, g guard) bool {
 						found = true
 					} else {
 						for _, a := range call.Args {
-							if exprStr(a) == g.rhs {
-								found = true
+							if sameText(fn, exprStr(a), g.rhs) {
+								// "after the last element was added": nothing may be appended to the
+								// sorted slice between this call and the use
+								late := false
+								info := fn.Info()
+								ast.Inspect(fn.Body, func(k ast.Node) bool {
+									as, ok := k.(*ast.AssignStmt)
+									if !ok || len(as.Lhs) != 1 || len(as.Rhs) != 1 || late {
+										return !late
+									}
+									if c2, ok := ast.Unparen(as.Rhs[0]).(*ast.CallExpr); ok && isBuiltinCall(info, c2, "append") && exprStr(as.Lhs[0]) == exprStr(a) {
+										if reachesStmt(fn, call, as, nil) && reachesStmt(fn, as, at, nil) {
+											late = true
+										}
+									}
+									return true
+								})
+								if !late {
+									found = true
+								}
 							}
 						}
 					}
@@ -832,9 +855,73 @@ func runRows(prop string) func(p *Prog, r *Report) {
 								extra = append(extra, pol+txt)
 							}
 						}
+						if len(extra) == 0 {
+							// early exits of the enclosing loop that skip this emission for some items
+							if rss := enclosingRanges(p, em, fn.Body); len(rss) > 0 {
+								rs := rss[0]
+								emAtoms := map[string]bool{}
+								for _, a := range fn.GuardsAt(em).AllAtoms() {
+									if a != nil && a.E != nil {
+										emAtoms[exprStr(a.E)] = true
+									}
+								}
+								ast.Inspect(rs.Body, func(k ast.Node) bool {
+									switch x := k.(type) {
+									case *ast.FuncLit:
+										return false
+									case *ast.ForStmt, *ast.RangeStmt:
+										if k != ast.Node(rs) {
+											return false
+										}
+									case *ast.BranchStmt:
+										if x.Pos() > em.Pos() || (x.Tok != token.CONTINUE && x.Tok != token.BREAK) || x.Label != nil {
+											return true
+										}
+										// break inside a switch binds to the switch
+										if x.Tok == token.BREAK {
+											for q := p.Parent(x); q != nil && q != ast.Node(rs); q = p.Parent(q) {
+												if _, isSw := q.(*ast.SwitchStmt); isSw {
+													return true
+												}
+												if _, isSw := q.(*ast.TypeSwitchStmt); isSw {
+													return true
+												}
+											}
+										}
+										for _, a := range guardsAtBranch(p, fn, x).AllAtoms() {
+											if a == nil || a.E == nil || a.Expanded || safeAtom(fn, a) || emAtoms[exprStr(a.E)] {
+												continue
+											}
+											allowed := false
+											for _, g := range rw.need {
+												if g.kind == gAny {
+													for _, sg := range g.sub {
+														if atomMatchesEitherPol(fn, a, sg) {
+															allowed = true
+														}
+													}
+												} else if atomMatchesEitherPol(fn, a, g) {
+													allowed = true
+												}
+											}
+											txt := cmpText(a.E)
+											for _, ex := range rw.exact {
+												if sameText(fn, txt, ex) || lastSel(a.E) == ex {
+													allowed = true
+												}
+											}
+											if !allowed {
+												extra = append(extra, "items with "+txt+" leave the loop early ("+x.Tok.String()+" at "+p.Pos(x)+")")
+											}
+										}
+									}
+									return true
+								})
+							}
+						}
 						if len(extra) > 0 {
 							r.Add("E1.row", fn.Name, construct, p.Pos(em), Violated,
-								fmt.Sprintf("%s — an additional filter narrows what is emitted here: %s", rw.why, strings.Join(extra, "; ")), true)
+								fmt.Sprintf("%s — an additional filter narrows what is emitted here: %s", rw.why, strings.Join(dedup(extra), "; ")), true)
 							continue
 						}
 					}
@@ -1307,4 +1394,36 @@ func inlinedVariants(fn *Func, be *ast.BinaryExpr) []ast.Expr {
 		out = append(out, all)
 	}
 	return out
+}
+
+// atomMatchesEitherPol: the atom is about the same test as guard g (whatever the outcome).
+func atomMatchesEitherPol(fn *Func, a *Atom, g guard) bool {
+	if atomMatches(fn, a, g) {
+		return true
+	}
+	b := *a
+	b.Pol = !a.Pol
+	return atomMatches(fn, &b, g)
+}
+
+// guardsAtBranch: go/cfg turns break/continue/return-less branches into edges, so a branch
+// statement is not a CFG node. Its guards are those of the condition of the innermost
+// enclosing if statement plus that condition's outcome on the branch's side.
+func guardsAtBranch(p *Prog, fn *Func, x ast.Stmt) *Formula {
+	for cur := p.Parent(x); cur != nil; cur = p.Parent(cur) {
+		ifs, ok := cur.(*ast.IfStmt)
+		if !ok {
+			if _, isFn := cur.(*ast.FuncLit); isFn {
+				break
+			}
+			continue
+		}
+		pol := nodeContains(ifs.Body, x)
+		if !pol && (ifs.Else == nil || !nodeContains(ifs.Else, x)) {
+			continue
+		}
+		inner := fn.expandHelperCalls(fn.expandBoolVars(decompose(ifs.Cond, pol, nil), 2), 2)
+		return fAnd(fn.GuardsAt(ifs.Cond), inner)
+	}
+	return fn.GuardsAt(x)
 }
